@@ -46,3 +46,62 @@ Theorem C09_rollback_log_additive : forall (batches : list (list change)) S0 k m
   rollback_apply (rollback_apply Sfinal ds k) (skipn k ds) m = rollback_apply Sfinal ds (k + m).
 Proof. exact Rollback_proofs.rollback_log_additive. Qed.
 Print Assumptions C09_rollback_log_additive.
+
+(* The codec of the records of the rollback log (nomt/src/rollback/delta.rs, mirrored in
+   DeltaCodec.v; the extracted decoder is run on every record of real logs by the rbtrace engine).
+   What the log stores for a commit decodes to exactly the reverse delta that was encoded, whatever
+   the order in which the HashMap was visited: same entries, an absent prior stays None, an empty
+   prior value stays Some []. *)
+From Coq Require Import List NArith Permutation.
+From Nomt Require Import Result DeltaCodec DeltaCodec_proofs.
+Import ListNotations.
+
+Theorem C09_delta_decode_encode : forall p, wf_priors p ->
+  exists q, delta_decode (delta_encode p) = Ok q /\
+            q = priors_of (groups_of p) /\
+            Permutation q p /\
+            NoDup (map fst q) /\
+            (forall k, In k (map fst q) <-> In k (map fst p)) /\
+            (forall k, alookup k q = alookup k p).
+Proof. exact DeltaCodec_proofs.delta_decode_encode. Qed.
+Print Assumptions C09_delta_decode_encode.
+
+Theorem C09_delta_decode_order : forall p p', wf_priors p -> Permutation p p' ->
+  exists q q', delta_decode (delta_encode p) = Ok q /\ delta_decode (delta_encode p') = Ok q' /\
+               Permutation q q' /\ forall k, alookup k q = alookup k q'.
+Proof. exact DeltaCodec_proofs.delta_decode_order. Qed.
+Print Assumptions C09_delta_decode_order.
+
+(* the reader of the log never panics on a record, whatever its bytes *)
+Theorem C09_delta_decode_total : forall bytes, delta_decode bytes <> Panic.
+Proof. exact DeltaCodec_proofs.delta_decode_total. Qed.
+Print Assumptions C09_delta_decode_total.
+
+Theorem C09_delta_encode_inj : forall p1 p2, wf_priors p1 -> wf_priors p2 ->
+  delta_encode p1 = delta_encode p2 ->
+  Permutation p1 p2 /\ forall k, alookup k p1 = alookup k p2.
+Proof. exact DeltaCodec_proofs.delta_encode_inj. Qed.
+Print Assumptions C09_delta_encode_inj.
+
+(* a record that decodes is the encoding of what it decodes to (followed by ignored bytes) *)
+Theorem C09_delta_reencode : forall bytes g r, Forall byte bytes ->
+  decode_groups bytes = Ok (g, r) -> encode_groups g ++ r = bytes /\ wf_groups g.
+Proof. exact DeltaCodec_proofs.delta_reencode. Qed.
+Print Assumptions C09_delta_reencode.
+
+(* non-vacuity: an erased key, an empty prior value and a 300-byte prior value, visited in a mixed order *)
+Theorem C09_delta_example_wf : wf_priors ex_delta.
+Proof. exact DeltaCodec_proofs.ex_delta_wf. Qed.
+Print Assumptions C09_delta_example_wf.
+
+Theorem C09_delta_example_roundtrip :
+  delta_decode (delta_encode ex_delta) = Ok [(ex_key 1, None); (ex_key 3, Some ex_long); (ex_key 2, Some [])].
+Proof. exact DeltaCodec_proofs.ex_delta_roundtrip. Qed.
+Print Assumptions C09_delta_example_roundtrip.
+
+Theorem C09_delta_empty_value_is_not_erase :
+  delta_decode (delta_encode [(ex_key 2, Some [])]) = Ok [(ex_key 2, Some [])] /\
+  delta_decode (delta_encode [(ex_key 2, None)]) = Ok [(ex_key 2, None)] /\
+  delta_encode [(ex_key 2, Some [])] <> delta_encode [(ex_key 2, None)].
+Proof. exact DeltaCodec_proofs.ex_empty_value_is_not_erase. Qed.
+Print Assumptions C09_delta_empty_value_is_not_erase.
